@@ -34,6 +34,7 @@ CLAUSES = ('eq', 'eq_reversed', 'hash', 'dict', 'set', 'pickle', 'attribute_acce
 FINDING_PICKLE = 'predicate-factors-unpicklable'
 FINDING_UNNAMED = 'unnamed-output-unpicklable'
 FINDING_KIND = 'compound-kind-unpicklable'
+FINDING_ALIAS = 'operable-eq-strips-alias'
 
 
 # --------------------------------------------------------------------------------------------- input classes
@@ -81,10 +82,19 @@ def table_names_only(a, b):
 
 def alias_against_element(a, b):
     """Input class of FINDING_TYPE (2): at some position one term holds an aliased feature (or a source) where the
-    other holds an element / a feature of another class."""
+    other holds a feature of another class."""
     out = []
     _diffs(a, b, out)
-    return any(tag == 'sort' and ({x.get('f'), y.get('f')} == {'alias', 'col'} or g.is_source(x) != g.is_source(y))
+    return any(tag == 'sort' and ('alias' in (x.get('f'), y.get('f')) or g.is_source(x) != g.is_source(y))
+               for tag, x, y in out)
+
+
+def alias_dropped(a, b):
+    """Input class of FINDING_ALIAS: at some position one term holds an aliased feature and the other the very operable
+    behind that alias."""
+    out = []
+    _diffs(a, b, out)
+    return any(tag == 'sort' and ((x.get('f') == 'alias' and x['args'][0] == y) or (y.get('f') == 'alias' and y['args'][0] == x))
                for tag, x, y in out)
 
 
@@ -107,6 +117,8 @@ def classify(pair, failing=()):
         return FINDING_PICKLE if has_predicate(a) else None
     if colliding_literals_only(a, b):
         return FINDING_HASH
+    if alias_dropped(a, b):
+        return FINDING_ALIAS
     if table_names_only(a, b) or alias_against_element(a, b):
         return FINDING_TYPE
     return None
@@ -139,9 +151,9 @@ def statement_pool(chk, rnd):
     d2 = [s for s in g.statements(2, False) if s['t'] == 'set' or s['l']['t'] == 'ref' and s['l']['l']['t'] != 'table']
     rich = g.statements(1, True)
     if chk.quick:
-        picks = d1[::29] + d2[::37] + rnd.sample(rich, 25)
+        picks = d1[::29] + d2[::37] + rnd.sample(rich, 25) + [g.random_statement(rnd, 3) for _ in range(12)]
     else:
-        picks = d1[::4] + d2[::5] + rnd.sample(rich, 600)
+        picks = d1[::6] + d2[::8] + rnd.sample(rich, 300) + [g.random_statement(rnd, 3) for _ in range(150)]
     # statements seeded with the literal values known to collide
     A = g.TABLES['A']
     ai, af = g.col(A, 'i'), g.col(A, 'f')
@@ -183,8 +195,8 @@ def make_pairs(chk, rnd):
                       'a': g.lit(x), 'b': g.lit(y)})
     # a source against a feature made of the same two items
     A = g.TABLES['A']
+    # (the other direction, feature == source, is the DSL comparison operator applied to a non-literal: an error by design)
     pairs.append({'sort': 'mixed', 'label': 'sort', 'a': g.ref(A, 'i'), 'b': g.col(A, 'i')})
-    pairs.append({'sort': 'mixed', 'label': 'sort', 'a': g.col(A, 'i'), 'b': g.ref(A, 'i')})
     kinds = kind_terms()
     for a, b in itertools.product(kinds, kinds):
         pairs.append({'sort': 'kind', 'label': 'identical' if a == b else 'kind', 'a': a, 'b': b})
@@ -404,18 +416,23 @@ def trace_identity(chk, pairs, procs):
                      {'kind': 'pair', 'pair': pairs[i], 'primary': o1, 'stressed': o2},
                      classify(pairs[i], ('pickle',) if pickling else ()))
     n_real = len(obs)
-    # binding self-test: corrupted observations must be rejected
-    same_i = next(i for i, (p, o, _) in enumerate(meta) if p['label'] == 'identical' and o['eq'] and p['sort'] == 'source'
-                  and not has_predicate(p['a']) and o['pk_self'] and o['u_ok'] and o['heq'])
-    diff_i = next(i for i, (p, o, _) in enumerate(meta) if p['label'] == 'operator' and not o['eq'])
-    obs.append(dict(obs[same_i], eq=False))
-    obs.append(dict(obs[diff_i], eq=True, eqr=True, dhit=True, ssize=1, heq=True, pk_b=True))
-    obs.append(dict(obs[same_i], heq=False))
+    # binding self-test on synthetic observations (independent of how the implementation behaves): a consistent
+    # identical pair and a consistent different pair are accepted, each corruption of them is rejected
+    q_a, q_b = g.query(g.TABLES['A']), g.query(g.TABLES['B'])
+    na = {'a_na': True, 'a_ok': False, 'c_na': True, 'c_ret_ok': False, 'c_hit': False, 'g_na': True, 'g_ok': False,
+          'u_na': True, 'u_ok': False, 'x_eq': False, 'x_pk': False}
+    good_same = dict(na, a=q_a, b=q_a, eq=True, eqr=True, heq=True, dhit=True, ssize=1, pk_self=True, pk_b=True)
+    good_diff = dict(na, a=q_a, b=q_b, eq=False, eqr=False, heq=False, dhit=False, ssize=2, pk_self=True, pk_b=False)
+    obs += [good_same, good_diff, dict(good_same, eq=False),
+            dict(good_diff, eq=True, eqr=True, dhit=True, ssize=1, heq=True, pk_b=True), dict(good_same, heq=False),
+            dict(good_diff, c_na=False, c_ret_ok=False)]
     verdicts = run_trace(chk, obs, procs)
     t2 = time.time()
-    chk.selftest('unequal_identical_pair_rejected', verdicts[n_real][1] == 0 and 'eq' in verdicts[n_real][2])
-    chk.selftest('equal_different_pair_rejected', verdicts[n_real + 1][1] == 0 and verdicts[n_real + 1][0] == 0)
-    chk.selftest('hash_of_identical_pair_rejected', verdicts[n_real + 2][1] == 0 and verdicts[n_real + 2][2] == ['hash'])
+    chk.selftest('consistent_pairs_accepted', verdicts[n_real][:2] == [1, 1] and verdicts[n_real + 1][:2] == [0, 1])
+    chk.selftest('unequal_identical_pair_rejected', verdicts[n_real + 2][1] == 0 and 'eq' in verdicts[n_real + 2][2])
+    chk.selftest('equal_different_pair_rejected', verdicts[n_real + 3][1] == 0 and verdicts[n_real + 3][0] == 0)
+    chk.selftest('hash_of_identical_pair_rejected', verdicts[n_real + 4][1] == 0 and verdicts[n_real + 4][2] == ['hash'])
+    chk.selftest('confused_parser_cache_rejected', verdicts[n_real + 5][2] == ['parser_cache'])
     by_label = collections.Counter()
     collisions = 0
     notes = collections.Counter()
